@@ -33,6 +33,8 @@ pub struct OracleState {
     pub c13: crate::c13::C13State,
     pub seal_pairs: BTreeSet<(Vec<u8>, Vec<u8>)>,
     pub bursts: u32,
+    pub cur_g: usize,
+    pub final_written: BTreeSet<(usize, usize)>,
 }
 
 #[derive(Default)]
@@ -231,6 +233,9 @@ pub fn lib_call<T>(
 ) -> VResult<Result<T, MlsError>> {
     let r = faulted(w, p, g, what, &mut call)?;
     let Some(g) = g else { return Ok(r) };
+    // a party's crypto PRNG is shared by all its groups: a call in one group moves it on, so twins the party
+    // has in other groups can no longer follow byte for byte
+    w.ext.twins.retain(|(q, gg), _| !(*q == p && *gg != g));
     if !w.ext.twins.contains_key(&(p, g)) {
         return Ok(r);
     }
@@ -829,7 +834,7 @@ pub fn do_replay(_w: &mut World, _p: usize, _g: usize, _msg: u64) -> VResult<boo
 pub fn do_special(w: &mut World, kind: &str, a: u64, b: u64, c: u64) -> VResult<bool> {
     match kind {
         "byz" => do_byz_commit(w, a as usize, 0, b as u8, c as u8),
-        "apply_detached" => do_apply_detached(w, a as usize, 0, b),
+        "apply_detached" => do_apply_detached(w, a as usize, c as usize, b),
         "burst" => {
             // C05: p sends b messages and then one more that overtakes them at every receiver
             let p = a as usize;
@@ -905,6 +910,7 @@ pub fn do_apply_detached(w: &mut World, p: usize, g: usize, k: u64) -> VResult<b
                 w.groups[g].reinit_at = Some(epoch);
                 return Ok(true);
             }
+            w.mem(p, g).ret_pending.insert(epoch);
             let ne = w.epoch_of(p, g).unwrap();
             if ne != epoch + 1 {
                 return Err(Violation::new(
@@ -1181,10 +1187,49 @@ pub fn after_join(w: &mut World, p: usize, g: usize, _how: &str) -> VResult<()> 
     Ok(())
 }
 
+pub fn retained(w: &World, p: usize, g: usize, e: u64) -> bool {
+    let Some(m) = w.mem_ref(p, g) else { return false };
+    (m.ret_disk.contains(&e) || m.ret_pending.contains(&e)) && !m.ret_nosecret.contains(&e)
+}
+
+/// the PSKs a commit injects, as far as the model can tell: (external ids, resumption epochs, certain?)
+pub fn commit_psks(w: &World, g: usize, msg: &Msg) -> (Vec<u8>, Vec<u64>, bool) {
+    let mut ext = msg.ext_psks.clone();
+    let mut res = msg.res_psks.clone();
+    let mut certain = true;
+    let s = msg.sender;
+    for r in &msg.refs {
+        let pm = &w.msgs[r];
+        for id in &pm.ext_psks {
+            // a by-reference PSK proposal the committer cannot resolve is dropped from the commit
+            if w.parties[s].pskstore.peek(&[b'k', *id]).is_some() {
+                if !ext.contains(id) {
+                    ext.push(*id);
+                } else {
+                    certain = false;
+                }
+            }
+        }
+        for e in &pm.res_psks {
+            if *e == msg.epoch || retained(w, s, g, *e) {
+                if !res.contains(e) {
+                    res.push(*e);
+                } else {
+                    certain = false;
+                }
+            } else {
+                certain = false;
+            }
+        }
+    }
+    (ext, res, certain)
+}
+
 fn holds_psks(w: &World, p: usize, msg: &Msg) -> Option<bool> {
     // Some(true): holds all external PSKs with the committer's values; Some(false): lacks / differs
     let s = msg.sender;
-    for id in &msg.ext_psks {
+    let (ext, _, _) = commit_psks(w, msg.g, msg);
+    for id in &ext {
         let key = vec![b'k', *id];
         let a = w.parties[s].pskstore.peek(&key);
         let b = w.parties[p].pskstore.peek(&key);
@@ -1193,6 +1238,17 @@ fn holds_psks(w: &World, p: usize, msg: &Msg) -> Option<bool> {
         }
     }
     Some(true)
+}
+
+/// can member p resolve every resumption PSK of the commit?
+fn holds_resumption(w: &World, p: usize, g: usize, msg: &Msg) -> bool {
+    let (_, res, _) = commit_psks(w, g, msg);
+    let Some(cur) = w.epoch_of(p, g) else { return false };
+    let join = w.mem_ref(p, g).map(|m| m.join_epoch).unwrap_or(0);
+    res.iter().all(|e| {
+        let member_then = w.groups[g].members.get(e).map(|m| m.contains_key(&p)).unwrap_or(false);
+        member_then && *e >= join && (*e == cur || retained(w, p, g, *e))
+    })
 }
 
 pub fn expect_commit(w: &World, p: usize, g: usize, cid: u64) -> Expect {
@@ -1219,14 +1275,29 @@ pub fn expect_commit(w: &World, p: usize, g: usize, cid: u64) -> Expect {
             Expect::May
         };
     }
+    // a member the commit removes does not run the key schedule: it needs no PSK (and the model does not
+    // try to predict every way a by-reference removal can be filtered)
+    let removes_p = msg.spec.as_ref().map(|s| s.removes.contains(&p)).unwrap_or(false)
+        || msg.refs.iter().any(|r| match &w.msgs[r].pspec {
+            Some(PropSpec::Remove { q }) => *q == p,
+            Some(PropSpec::SelfRemove) => w.msgs[r].sender == p,
+            _ => false,
+        });
+    if removes_p {
+        return Expect::May;
+    }
     if holds_psks(w, p, msg) == Some(false) {
         return Expect::MustErr;
     }
     if msg.private && w.ext.rolled_back.contains(&(msg.sender, g, msg.epoch)) {
         return Expect::May;
     }
-    if !msg.res_psks.is_empty() {
+    let (_, res, certain) = commit_psks(w, g, msg);
+    if !certain {
         return Expect::May;
+    }
+    if !res.is_empty() && !holds_resumption(w, p, g, msg) {
+        return Expect::MustErr;
     }
     if msg.refs.iter().any(|r| !mem.cached.contains(r)) {
         return Expect::May;
@@ -1237,13 +1308,21 @@ pub fn expect_commit(w: &World, p: usize, g: usize, cid: u64) -> Expect {
     Expect::MustOk
 }
 
-pub fn expect_join(w: &World, p: usize, _g: usize, cid: u64) -> Expect {
+pub fn expect_join(w: &World, p: usize, g: usize, cid: u64) -> Expect {
     let msg = &w.msgs[&cid];
     if holds_psks(w, p, msg) == Some(false) {
         return Expect::MustErr;
     }
-    if !msg.res_psks.is_empty() {
+    let (_, res, certain) = commit_psks(w, g, msg);
+    if !certain {
+        return Expect::May;
+    }
+    if !res.is_empty() {
+        // a new member cannot hold a resumption secret of this group
         return Expect::MustErr;
+    }
+    if w.mem_ref(p, g).map(|m| m.rejoined_same_storage).unwrap_or(false) {
+        return Expect::May;
     }
     Expect::MustOk
 }
@@ -1265,7 +1344,35 @@ pub fn expect_msg(w: &World, p: usize, g: usize, id: u64) -> Expect {
                 return Expect::MustErr;
             }
             if msg.epoch < epoch {
-                return Expect::May;
+                if !w.cfg.oracle("retention") {
+                    return Expect::May;
+                }
+                if mem.accepted.contains(&id) {
+                    return Expect::MustErr;
+                }
+                if !retained(w, p, g, msg.epoch) {
+                    return Expect::MustErr;
+                }
+                if w.ext.rolled_back.contains(&(msg.sender, g, msg.epoch)) {
+                    return Expect::May;
+                }
+                let pos = mem.ratchet_pos.get(&(msg.sender, msg.epoch, true)).copied().unwrap_or(0);
+                if msg.gen > pos + 1024 {
+                    return Expect::MustErr;
+                }
+                // the sender's leaf must still carry the signature key it had then
+                let then = w.groups[g].records.get(&msg.epoch);
+                let now = w.groups[g].records.get(&epoch);
+                let (Some(then), Some(now)) = (then, now) else { return Expect::May };
+                let sidx = w.groups[g].members.get(&msg.epoch).and_then(|m| m.get(&msg.sender)).copied();
+                let Some(sidx) = sidx else { return Expect::MustErr };
+                let t = then.roster.iter().find(|(i, _, _)| *i == sidx);
+                let n = now.roster.iter().find(|(i, _, _)| *i == sidx);
+                return match (t, n) {
+                    (Some((_, _, k0)), Some((_, _, k1))) if k0 == k1 => Expect::MustOk,
+                    (Some((_, id0, _)), Some((_, id1, _))) if id0 == id1 => Expect::May,
+                    _ => Expect::MustErr,
+                };
             }
             if mem.accepted.contains(&id) {
                 return Expect::MustErr;
@@ -1356,8 +1463,11 @@ pub fn stuck_reason(w: &World, p: usize, _g: usize, cid: u64) -> Option<String> 
     if holds_psks(w, p, msg) == Some(false) {
         return Some("lacks PSK".into());
     }
-    if !msg.res_psks.is_empty() {
+    if !commit_psks(w, _g, msg).1.is_empty() {
         return Some("resumption PSK not retained".into());
+    }
+    if msg.refs.iter().any(|r| !w.msgs[r].ext_psks.is_empty() || !w.msgs[r].res_psks.is_empty()) {
+        return Some("PSK proposed by reference not resolvable".into());
     }
     if msg.private && w.ext.rolled_back.contains(&(msg.sender, _g, msg.epoch)) {
         return Some("sender ratchet rolled back by crash".into());
@@ -1389,6 +1499,23 @@ pub fn after_accepted(_w: &mut World, _p: usize, _g: usize, _id: u64, _pre: Pre)
 }
 
 pub fn after_write(w: &mut World, p: usize, g: usize, _pre: Pre) -> VResult<()> {
+    if w.cfg.oracle("retention") {
+        let gid = w.groups[g].gid.clone();
+        let ids: BTreeSet<u64> = w.parties[p].gstore.view(&gid).epochs.keys().copied().collect();
+        let model = w.parties[p].mems[g].ret_disk.clone();
+        w.stats.check("stored-epochs-equal-retention-model");
+        if ids != model && !w.parties[p].mems[g].rejoined_same_storage {
+            return Err(Violation::new(
+                &w.cfg.property,
+                "retention-window",
+                "stored-epochs-differ-from-window".into(),
+                format!(
+                    "P{p}: after write_to_storage the storage holds prior epochs {:?}, the retention window (R = {}) says {:?}",
+                    ids, w.cfg.retention, model
+                ),
+            ));
+        }
+    }
     c06_after_write(w, p, g)
 }
 
